@@ -243,6 +243,24 @@ struct transition_table_impl
             auto& source = sm.template get_state<current_state_type>();
             auto& target = sm.template get_state<next_state_type>();
 
+            // A transition leaving an exit pseudostate can only be taken
+            // while that exit pseudostate is active in the submachine.
+            if constexpr (has_exit_pseudostate_be_tag<typename Row::Source>::value)
+            {
+                using exit_pt_t = typename Row::Source;
+                constexpr auto exit_pt_id =
+                    current_state_type::template get_state_id<exit_pt_t>();
+                bool exit_pt_active = false;
+                for (const auto active_state_id : source.get_active_state_ids())
+                {
+                    exit_pt_active |= (active_state_id == exit_pt_id);
+                }
+                if (!exit_pt_active)
+                {
+                    return process_result::HANDLED_FALSE;
+                }
+            }
+
             if (!call_guard_or_true<Row, HasGuard>(sm, event, source, target))
             {
                 // guard rejected the event, we stay in the current one
